@@ -30,6 +30,12 @@ func (c *Ctx) Fail(msg string) {
 	}
 }
 
+var resets []func()
+
+// RegisterReset registers a function that puts the package-level state of an instrumented
+// package back to its initial state; it runs before every execution.
+func RegisterReset(f func()) { resets = append(resets, f) }
+
 func Fail(msg string) {
 	if S != nil && S.fail == "" {
 		S.fail = msg
@@ -124,6 +130,12 @@ func hasID(ids []uint64, id uint64) bool {
 func runOne(cfg *Config, prefix []int, visited map[uint64]cacheEntry, body func(*Ctx), wantDescr bool, useSleep bool, sleep []sleeper) *execResult {
 	var steps []stepInfo
 	epochCounter++
+	// package-level state of the instrumented packages starts afresh (no scheduler active
+	// while it is rebuilt: the shims behave like the real primitives)
+	S = nil
+	for _, f := range resets {
+		f()
+	}
 	s := &Sched{yield: make(chan *Thread), epoch: epochCounter, timersLive: cfg.TimersLive}
 	if len(cfg.Promote) > 0 {
 		s.promote = make(map[string]bool, len(cfg.Promote))
